@@ -52,7 +52,11 @@ def gen_program(seed, family):
             inits.append(inits[0])  # one value shared among containers
         else:
             inits.append(g.init_addr())
-    if family == "churn":
+    group = 0
+    if family == "seqchurn":
+        nthreads = rng.randint(4, 8)
+        group = rng.randint(1, 2)
+    elif family == "churn":
         nthreads = rng.randint(3, 6)
     elif family in ("basic", "wrap"):
         nthreads = rng.randint(1, 2)
@@ -65,7 +69,9 @@ def gen_program(seed, family):
         owned = []   # owned handles of this thread
         guards = []  # guard handles
         caches = []
-        if family == "churn":
+        if group and t >= group:
+            cmds.append("join %d" % (t - group))
+        if family in ("churn", "seqchurn"):
             ncmd = rng.randint(1, 5)
         elif family == "guards":
             ncmd = rng.randint(10, 24)
@@ -156,7 +162,7 @@ def gen_program(seed, family):
                 cmds.append("drop %d" % h)
         # leave some handles for higher threads to drop (guards dropped on another thread,
         # possibly after this thread has exited)
-        if family in ("mixed", "multi", "churn", "guards") and t + 1 < nthreads:
+        if family in ("mixed", "multi", "churn", "guards", "seqchurn") and t + 1 < nthreads:
             for h in list(guards):
                 if rng.random() < 0.3:
                     guards.remove(h); hx = g.handle(); cmds.append("move %d %d" % (h, hx)); exported.append((hx, "g"))
@@ -170,13 +176,17 @@ def gen_program(seed, family):
     # the last thread consumes whatever was exported and not stolen
     for h, _ in exported:
         threads[-1].append("drop %d" % h)
-    lines = ["config fast=%d debug=1" % fast, "init " + " ".join(str(a) for a in inits)]
+    if group:
+        lines0 = ["# peak %d threads alive at a time" % group]
+    else:
+        lines0 = []
+    lines = lines0 + ["config fast=%d debug=1" % fast, "init " + " ".join(str(a) for a in inits)]
     for t, cmds in enumerate(threads):
         lines.append("thread %d: %s" % (t, "; ".join(cmds)))
     return "\n".join(lines) + "\n"
 
 
-FAMILIES = ["basic", "mixed", "guards", "nofast", "helping", "cas", "multi", "churn", "cache", "wrap"]
+FAMILIES = ["basic", "mixed", "guards", "nofast", "helping", "cas", "multi", "churn", "seqchurn", "cache", "wrap"]
 
 if __name__ == "__main__":
     import sys
